@@ -13,7 +13,8 @@ CLAUSES = {
     "C10.fixed": 60000,      # all loci fixed (integer counts) => usl == lsl == common GEBV
     "C10.lost": 60000,       # integer count 0 stays 0; reported frequency exactly 0/1 stays exactly 0/1
 }
-HOOKS_REQUIRED = ["breeding-value route: gebv_numpy", "breeding-value route: gegv_numpy", "breeding-value route: predict_numpy(X = 0)",
+HOOKS_REQUIRED = ["generations with an allele frequency within 1e-5 of 0 or 1 but not equal to it",
+                  "breeding-value route: gebv_numpy", "breeding-value route: gegv_numpy", "breeding-value route: predict_numpy(X = 0)",
                   "breeding-value route: gebv(phased).unscale()", "breeding-value route: gebv(ndarray).unscale()",
                   "breeding-value route: predict(contrast, phased).unscale()",
                   "matings with a cross table whose dtype cannot hold parent index * nvrnt",
@@ -39,7 +40,9 @@ RULE = ("seeded closed breeding histories driven through the real classes: found
         "values are read through gebv_numpy / gegv_numpy / predict_numpy / gebv() / gegv() / predict() on phased and array "
         "inputs; 30 % of the founder matrices are never grouped along the variant axis and store their "
         "chromosomes interleaved with unsorted positions; 3 % of the mating histories (15 % of the chains) contain one "
-        "generation of 4097-8200 taxa; cross tables (and select_taxa index arrays, count vectors) are passed in every integer "
+        "generation of 4097-8200 taxa; family 'huge' (12 histories quick, 400 thorough): 50 000-200 000 diploid founders x 3-8 "
+        "loci whose alleles are one, two or five copies away from loss / fixation (both directions), first step = selecting "
+        "the carriers, then small mated generations; cross tables (and select_taxa index arrays, count vectors) are passed in every integer "
         "dtype int8...uint32/int64 that can hold their values, C-/F-ordered, strided or reversed views; 10 % of the mating "
         "histories are 'wide' (100-330 taxa x 100-330 loci, sizes 127/128/255/256/257/330) so that parent index * nvrnt "
         "passes the 8- and 16-bit limits; distinct = digest of founders, effects and the executed operation list.")
@@ -171,6 +174,28 @@ def gen_founder_mat(g, n, m, ploidy, fcls):
     return numpy.ascontiguousarray(mat).astype("int8")
 
 
+def gen_huge_founders(g, n, m):
+    """Very large founder population in which most loci are one or two copies away from loss / fixation.
+
+    Returns (matrix, indices of the individuals that carry a rare copy)."""
+    mat = numpy.empty((2, n, m), dtype="int8")
+    carriers = []
+    for j in range(m):
+        base = int(g.integers(0, 2)); mat[:, :, j] = base
+        kind = ["one copy", "one copy", "two copies, two carriers", "two copies, one carrier", "none", "five copies"][int(g.integers(6))]
+        if j == 0 and kind == "none":
+            kind = "one copy"
+        k = {"one copy": 1, "two copies, two carriers": 2, "two copies, one carrier": 1, "none": 0, "five copies": 5}[kind]
+        who = g.choice(n, k, replace=False) if k else []
+        for i in who:
+            if kind == "two copies, one carrier":
+                mat[:, i, j] = 1 - base
+            else:
+                mat[int(g.integers(2)), i, j] = 1 - base
+            carriers.append(int(i))
+    return mat, numpy.unique(numpy.array(carriers, dtype="int64"))
+
+
 def make_pop(g, mat, nchr, ungrouped=False):
     from pybrops.popgen.gmat.DensePhasedGenotypeMatrix import DensePhasedGenotypeMatrix
     ploidy, n, m = mat.shape
@@ -290,6 +315,9 @@ def read_generation(ctx, mon, model, has_unscale, genotyper, pg, t, op, opsite, 
             except Exception as e:
                 ctx.raised("afreq (%s)" % name, e)
     ctx.sumnote("generations fixed at all loci" if numpy.all((count == 0) | (count == ploidy * n)) else "generations with segregating loci")
+    fq = count / float(ploidy * n)
+    if numpy.any(((fq > 0.0) & (fq <= 1e-5)) | ((fq < 1.0) & (fq >= 1.0 - 1e-5))):
+        ctx.hook("generations with an allele frequency within 1e-5 of 0 or 1 but not equal to it")
     if n > 4096:
         ctx.hook("generations with more than 4096 taxa")
     if (ploidy * n) in CRITN:
@@ -442,6 +470,7 @@ def case_history(ctx, c, family="hist"):
     g = ctx.rng(family, c)
     coords = [c, family]
     chain = family == "chain"
+    huge = family == "huge"
     ploidy = int(g.choice([1, 2, 4, 4, 1, 3])) if chain else 2
     fcls = ["random", "random", "skewed", "skewed", "skewed", "inbred", "inbred", "singletons", "singletons", "complementary", "fixed"][int(g.integers(11))]
     if chain:
@@ -449,12 +478,18 @@ def case_history(ctx, c, family="hist"):
     else:
         n0 = int(g.integers(2, 31)) if g.random() < 0.8 else int(g.choice([1, 2, 40, 49, 33]))
         m = int(g.integers(3, 41)) if g.random() < 0.85 else int(g.integers(1, 4))
-    wide = (not chain) and g.random() < 0.1   # sizes around the limits of 8- and 16-bit integers (index * nvrnt, n * nvrnt)
+    wide = (not chain) and (not huge) and g.random() < 0.1   # sizes around the limits of 8- and 16-bit integers (index * nvrnt, n * nvrnt)
     if wide:
         n0 = int(g.choice([100, 127, 128, 130, 200, 256, 257, 330, 330])); m = int(g.choice([100, 113, 127, 128, 129, 200, 255, 256, 257, 330, 330]))
     ntrait = int(g.choice([1, 2, 2, 3, 3]))
+    carriers = None
+    if huge:   # 50 000 - 200 000 founders, few markers, alleles one or two copies away from loss / fixation
+        n0 = int(g.choice([50000, 65536, 100000, 131072, 150000, 200000])); m = int(g.integers(3, 9)); fcls = "very large, rare copies"
     u, ucls = gen_effects(g, m, ntrait)
-    mat0 = gen_founder_mat(g, n0, m, ploidy, fcls)
+    if huge:
+        mat0, carriers = gen_huge_founders(g, n0, m)
+    else:
+        mat0 = gen_founder_mat(g, n0, m, ploidy, fcls)
     ungrouped = g.random() < 0.3
     pg = make_pop(g, mat0, int(g.integers(2, 5)) if ungrouped else int(g.integers(1, 4)), ungrouped=ungrouped)
     if ungrouped:
@@ -464,15 +499,17 @@ def case_history(ctx, c, family="hist"):
     ngen = int(g.integers(3, 26)) if g.random() < 0.3 else int(g.integers(3, 11))
     tail = (not chain) and g.random() < 0.35
     history = [{"op": "founders", "class": fcls, "ntaxa": n0, "nvrnt": m, "ploidy": ploidy, "variant_axis": "ungrouped, interleaved" if ungrouped else "grouped"}]
-    icls = ("selection-only chain, ploidy %d" % ploidy) if chain else "mating history"
+    icls = ("selection-only chain, ploidy %d" % ploidy) if chain else ("very large founder population" if huge else "mating history")
     mon = O.HistoryMonitor(ctx, u, icls, coords, history, model)
     protos = {}
     G, gref = read_generation(ctx, mon, model, has_unscale, genotyper, pg, 0, history[0], "founders", g)
     t = 0
     plan = []
+    if huge:
+        ngen = int(g.integers(2, 7)); plan.append("carriers")
     for _ in range(ngen):
         plan.append("subset" if chain else ["mate", "mate", "mate", "mate", "subset", "subset", "merge"][int(g.integers(7))])
-    if (not chain) and g.random() < 0.03:    # one very large generation (block-wise code paths, > 4096 rows)
+    if (not chain) and (not huge) and g.random() < 0.03:    # one very large generation (block-wise code paths, > 4096 rows)
         plan.insert(int(g.integers(0, len(plan) + 1)), "big")
     if tail:
         plan += ["tail-dh", "tail-self", "tail-cross", "tail-subset", "tail-self"][: int(g.integers(2, 6))]
@@ -503,6 +540,13 @@ def case_history(ctx, c, family="hist"):
                 pc = numpy.asarray(prog.mat).astype(numpy.int64).sum((0, 1))   # which step brought an allele back, if any?
                 inprog = bool(numpy.any(mon.lost0 & (pc != 0)) or numpy.any(mon.lost1 & (pc != prog.ntaxa * 2)))
                 site = site1 if inprog else O.defining_class(pg, "concat_taxa") + ".concat_taxa"
+            elif kind == "carriers":   # selection picks the carriers of the rare copies (plus a few others)
+                ix64 = numpy.unique(numpy.r_[carriers, g.choice(n, int(g.integers(0, 8)), replace=False)])
+                ix64 = g.permutation(ix64) if g.random() < 0.5 else ix64
+                ix, idt, ilay = index_array(g, ix64)
+                new = pg.select_taxa(ix); ctx.hook("select_taxa calls")
+                op = {"op": "select_taxa", "rule": "carriers of the rare copies", "indices": ix64.tolist(), "index_dtype": idt, "index_layout": ilay}
+                site = O.defining_class(pg, "select_taxa") + ".select_taxa"
             elif kind == "big":
                 new, op, site = do_mate(ctx, g, protos, pg, gref, int(g.choice([4097, 5000, 4500, 8200])), force=PROTOS[int(g.integers(0, 3))])
             elif kind == "tail-dh":   # one doubled haploid: a population fixed at every locus
@@ -551,7 +595,8 @@ def case_history(ctx, c, family="hist"):
 
 
 FAMILIES = {"hist": (lambda ctx, c: case_history(ctx, c, "hist"), 1800, 16 * 6000),
-            "chain": (lambda ctx, c: case_history(ctx, c, "chain"), 700, 16 * 2000)}
+            "chain": (lambda ctx, c: case_history(ctx, c, "chain"), 700, 16 * 2000),
+            "huge": (lambda ctx, c: case_history(ctx, c, "huge"), 12, 16 * 25)}
 
 
 def run_shard(ctx):
